@@ -69,6 +69,9 @@ def baseline(ctx, base, cases, p):
                     un["status"], "changed" if un["pre_abs"] != un["post_abs"] else "unchanged"))
             out.append(rec)
             continue
+        if un.get("monitor_only"):
+            out.append(rec)
+            continue
         if un.get("request") is None:
             rec["problems"].append(un.get("derive_error") or "no model request")
             out.append(rec)
